@@ -91,7 +91,7 @@ func clip(s string) string {
 }
 
 func run(t *rapid.T, prop string) {
-	b := fam.Bounds{MaxRows: 14, MaxCols: 4, MaxMembers: 24}
+	b := fam.Bounds{MaxRows: 16, MaxCols: 4, MaxMembers: 24}
 	maxOps, maxBuild := 4, 5
 	if core.Thorough() {
 		b = fam.Bounds{MaxRows: 40, MaxCols: 5, MaxMembers: 40}
